@@ -191,6 +191,47 @@ theorem C29_no_invention (P : Params) (s s' : State) (a : Action) (hns : a ≠ .
     · simp only [Option.some.injEq] at h; subst h; exact hx
     · simp at h
 
+
+/-! ### the planner is not part of the model: ANY plan over the compactor's view is allowed -/
+
+theorem mapM_find_some {view : List Blk} : ∀ (ids : List Nat), (∀ i ∈ ids, ∃ b ∈ view, b.id = i) →
+    ∃ plan, ids.mapM (findBlk view) = some plan ∧ plan.length = ids.length
+  | [], _ => ⟨[], by simp, rfl⟩
+  | i :: ids, h => by
+    obtain ⟨plan, hp, hl⟩ := mapM_find_some ids (fun j hj => h j (List.mem_cons_of_mem _ hj))
+    obtain ⟨b, hb, hbi⟩ := h i (by simp)
+    have hfind : ∃ b', findBlk view i = some b' := by
+      unfold findBlk
+      cases hf : view.find? (fun b => b.id == i) with
+      | some b' => exact ⟨b', rfl⟩
+      | none =>
+        have := List.find?_eq_none.mp hf b hb
+        simp [hbi] at this
+    obtain ⟨b', hb'⟩ := hfind
+    exact ⟨b' :: plan, by simp [List.mapM_cons, hb', hp], by simp [hl]⟩
+
+/-- The `compact` action is enabled for EVERY non-empty duplicate-free choice of blocks of the
+    compactor's view — not only for plans the real planner would make.  By `C30_subset` and
+    `C30_no_excluded` every plan of the real planner is such a choice (a sublist of the group's metas,
+    which are the compactor's view), so the theorems of this file (`C29_cover`, `C29_served`,
+    `C29_no_loss`, `C29_no_invention`, `C29_once`), being about all action sequences, hold whatever
+    the planner selects: single blocks, overlapping blocks, blocks with gaps between them, blocks
+    already marked for deletion but still in view. -/
+theorem C29_any_plan (P : Params) (s : State) (ids : List Nat) (hne : ids ≠ []) (hnd : ids.Nodup)
+    (hview : ∀ i ∈ ids, ∃ b ∈ compactorView P s, b.id = i) :
+    ∃ s', step P s (.compact ids) = some s' := by
+  obtain ⟨plan, hp, hl⟩ := mapM_find_some (view := compactorView P s) ids hview
+  have hpne : plan ≠ [] := by
+    intro h0
+    rw [h0] at hl
+    cases ids with
+    | nil => exact hne rfl
+    | cons a l => simp at hl
+  simp only [step, hnd, if_true, hp]
+  cases plan with
+  | nil => exact absurd rfl hpne
+  | cons a l => exact ⟨_, rfl⟩
+
 /-! ### "once compaction finishes each sample is served exactly once" -/
 
 /-- two blocks share no sample -/
